@@ -1,2 +1,3 @@
 import NjectGen.Registry
 import NjectGen.Micro
+import NjectGen.Consts
